@@ -175,7 +175,7 @@ func c05(tier string) {
 			ctx.FinishShard()
 		}
 	}
-	ctxDir, _ := os.MkdirTemp("", "c05ctx")
+	ctxDir := lib.TempDir("c05ctx")
 	defer os.RemoveAll(ctxDir)
 	ctxFile := filepath.Join(ctxDir, "context.jsonld")
 	ctx.ForEach(nGraphs, func(i int) {
